@@ -7,43 +7,28 @@ from harness import gen, layout, edits
 from harness.core import pmap, Adaptor
 from harness.checks import c02gen
 
+import os
+SALT = os.environ.get("CENSUS_SALT", "")
 FRAG = ["(", ")", "{", "}", ";", ":=", "if", "else", "while", "x", "1", ",", "[", "]", "var", "proc", "type", ":", "=", "<", "+", "// c\n", "'", "0x"]
 
 def work(seed):
-    rng = random.Random("c01census/%s" % seed); ad = Adaptor(); out = []; n = 0; nbroken = 0
-    for it in range(1500):
-        P = gen.generate(rng.getrandbits(32), size=rng.choice([1, 1, 2]), depth=rng.choice([1, 2]), edepth=1, docs=.1, stmt_comments=.05, lits=False, nonascii=False, max_stmts=2)
-        text = layout.layout(P, rng, "spaced")
-        toks = [t for t in P.toks if t.kind != "comment"]
-        t0 = text
-        steps = []
-        for k in range(rng.randint(1, 3)):
-            b = t0.encode()
-            tk = rng.choice(toks)
-            op = rng.random()
-            # token-level damage on the *current* text: find the token text near its original place is not tracked; use byte ranges of random lexemes instead
-            import re
-            words = [(m.start(), m.end()) for m in re.finditer(rb"[A-Za-z_0-9]+|:=|[(){}\[\];:,=<>+\-*/#]", b)]
-            if not words: break
-            a, e = rng.choice(words)
-            if op < .4: ch = [a, e, ""]
-            elif op < .7: ch = [a, a, rng.choice(FRAG) + " "]
-            else: ch = [a, e, rng.choice(FRAG)]
-            steps.append([ch]); t0 = edits.apply_change(t0, ch)
+    from harness.checks import c01
+    rng = random.Random("c01census/%s/%s" % (SALT, seed)); ad = Adaptor(); out = []; n = 0
+    for it in range(int(os.environ.get("CENSUS_N", "1500"))):
+        text, steps = c01.make_damage_history(rng)
         if not steps: continue
         r = ad.call(op="history", text=text, steps=steps)
-        n += len(steps)
+        n += r.get("steps_done", len(steps))
         if r.get("div") or r.get("update_panic"):
             k = (r.get("div") or {}).get("step", r.get("step"))
             cur = text
-            for s in steps[:k]:
-                for ch in s: cur = edits.apply_change(cur, ch)
+            for st in steps[:k]:
+                for ch in st: cur = edits.apply_change(cur, ch)
             ch = steps[k][0]
             r2 = ad.call(op="history", text=cur, steps=[[ch]])
-            if r2.get("div") or r2.get("update_panic"):
-                d = r2.get("div")
-                sig = ("panic:" + r2["update_panic"]["message"][:40]) if r2.get("update_panic") else ",".join(d["what"]) + "|" + str((d["detail"].get("tree_diff") or {}).get("updated", [""])[0]) + ">" + str((d["detail"].get("tree_diff") or {}).get("fresh", [""])[0])
-                out.append((len(cur), sig, cur, ch))
+            d = r2.get("div") or r.get("div")
+            sig = ("panic:" + json.dumps(r.get("update_panic"))[:60]) if r.get("update_panic") else ",".join(d["what"]) + "|" + str((d["detail"].get("tree_diff") or {}).get("updated", [""])[0]) + ">" + str((d["detail"].get("tree_diff") or {}).get("fresh", [""])[0]) + ("" if r2.get("div") else " (needs the history)")
+            out.append((len(cur), sig, cur if r2.get("div") else text, ch if r2.get("div") else steps[:k + 1]))
     ad.close()
     return n, out
 
@@ -59,4 +44,4 @@ if __name__ == "__main__":
     for sig, ws in sorted(by.items(), key=lambda kv: -len(kv[1])):
         ws.sort(key=lambda w: w[0]); keep.append(ws[0])
         print("%4d %s | shortest %d bytes" % (len(ws), sig, ws[0][0]))
-    json.dump([{"signature": w[1], "text": w[2], "change": w[3]} for w in keep], open("/tmp/c01census.json", "w"), indent=1)
+    json.dump([{"signature": w[1], "text": w[2], "change": w[3]} for w in keep], open("/tmp/c01census%s.json" % SALT, "w"), indent=1)
